@@ -372,6 +372,19 @@ def plain(o):
     return [o[0], repr(o[1]) if o[0] == "raised" else o[1]]
 
 
+def observe_on(chk, tree):
+    """(errors outcome, call outcome) of an EXISTING checker instance"""
+    try:
+        e = ("done", chk.errors(tree))
+    except Exception as ex:   # noqa
+        e = ("raised", ex)
+    try:
+        c = ("done", chk(tree))
+    except Exception as ex:   # noqa
+        c = ("raised", ex)
+    return e, c
+
+
 def observe(check_mod, tree, zeal):
     """run errors() and __call__ on (copies of) the tree; returns (errors outcome, call outcome) where an
     outcome is ('done', value) or ('raised', exception)"""
@@ -570,6 +583,37 @@ def correspond(model_ok, res):
         dist["outcome"][okind] = dist["outcome"].get(okind, 0) + 1
         if gentree.count_nodes(tree) > 1 or okind != "accepted":
             seen.add((bool(z), desc))
+
+    # -- histories with in-place edits: ONE checker instance, the SAME tree object checked, edited in place
+    #    (a defect injected, then repaired), and checked again; every answer must be the one a fresh checker gives
+    #    for the tree as it is at that moment
+    n_edit = 0
+    for i in range(40 * scale):
+        z = [0, 1, 2][i % 3]
+        wfg = WF(r, T, z)
+        tree = T.AndOperation(wfg.expr(2), T.Group(T.OrOperation(wfg.expr(1), wfg.word())), wfg.word())
+        words = [n for _, n in gentree.all_nodes(tree) if type(n) is T.Word]
+        if not words:
+            continue
+        rc = check_mod.LuceneCheck(zeal=z)
+        steps = ["checker = LuceneCheck(zeal=%d); tree = %s" % (z, gentree.describe(tree)[:300])]
+        w = r.choice(words)
+        good = w.value
+        for value, what in ((None, "check"), ("a b", "inject: Word %r .value = 'a b'" % good), (good, "repair"),
+                            ("x\ty", "inject again"), (good, "repair again")):
+            if value is not None:
+                w.value = value
+                steps.append(what)
+            n_edit += 1
+            got = [plain(o) for o in observe_on(rc, tree)]
+            want = [plain(o) for o in observe(check_mod, tree, z)]
+            steps.append("checker.errors(tree), checker(tree)")
+            if got != want:
+                res.failures.append(({"clause": "same answer from a checker instance used before, on the tree as it "
+                                                "is now (edited in place since the last call)",
+                                      "history": list(steps), "reused": got, "fresh": want, "zeal": z}, None))
+                break
+    dist["edit_history_calls"] = n_edit
 
     res.cases = len(gcases)
     res.nontrivial = len(seen)
